@@ -62,7 +62,7 @@ func c08Generate(c *mon.Ctx) {
 
 	wr := gen.WideResonant(oracle.P)
 	for i, b := range wr {
-		if i%c.N(3, 1) != int(c.Seed%uint64(c.N(3, 1))) {
+		if i%c.N(1, 1) != int(c.Seed%uint64(c.N(1, 1))) {
 			continue
 		}
 
